@@ -115,8 +115,8 @@ class SqliteStorage(AbstractStorage):
 
             check_for_migration(self)
 
-        self.last_commit = datetime.now()
-        self.num_uncommitted_statements = 0
+        # Whatever a migration has written must be durable (and counted) before the store is used
+        self.commit()
 
     def commit(self):
         """
